@@ -33,13 +33,17 @@ fn main() {
     let t0 = std::time::Instant::now();
     let mut rep = match engine.as_str() {
         "c14" => {
+            let shard: usize = arg("--shard", "0").parse().unwrap();
+            let nshards: usize = arg("--nshards", "1").parse().unwrap();
             let mut r = Report::new("table", "C14", &config);
-            table::run_c14(&tier, odd, &mut r);
+            table::run_c14(&tier, odd, shard, nshards, &mut r);
             r
         }
         "c15" => {
+            let shard: usize = arg("--shard", "0").parse().unwrap();
+            let nshards: usize = arg("--nshards", "1").parse().unwrap();
             let mut r = Report::new("table", "C15", &config);
-            table::run_c15(&tier, odd, &mut r);
+            table::run_c15(&tier, odd, shard, nshards, &mut r);
             r
         }
         "c09" | "c12r" => {
